@@ -430,4 +430,25 @@ Section Sound.
       destruct (helper_sound ipc cur f s HUUID b Hf He) as (r & Hr & ->). cbn in Hr.
       unfold violated. rewrite S. cbn. rewrite Hr. reflexivity.
   Qed.
+
+  (* no validator, or a validator with an empty condition: the specification has no verdict either *)
+  Theorem cond_absent r f t arg v :
+    (forall c, make_cond tab r f t arg <> WithCond c) -> has_type v t = true -> violated ipc tab r arg t v = None.
+  Proof.
+    intros Hm Ht. destruct r; cbn [make_cond] in Hm; unfold violated;
+      try (destruct (is_string_type t) eqn:S; [|reflexivity]);
+      try (destruct (is_numeric_type t) eqn:N; [|reflexivity]);
+      try (destruct (is_collection_type t) eqn:C; [|reflexivity]);
+      try (destruct arg as [a|]; [|reflexivity]);
+      try (exfalso; eapply Hm; reflexivity); try reflexivity.
+    - (* enum *)
+      destruct (enum_kind_of t) as [k|] eqn:K; [|reflexivity].
+      exfalso. pose proof (split_on_nonempty ","%byte a) as NE. unfold enum_items in Hm.
+      destruct (split_on ","%byte a) as [|it0 r0]; [congruence|]. cbn [map] in Hm.
+      match type of Hm with context [conj (?x :: ?l)] => destruct (conj_cons_some x l) as [d D]; rewrite D in Hm end.
+      eapply Hm. reflexivity.
+    - (* required *)
+      destruct (required_cond f t) as [c|] eqn:R; [exfalso; eapply Hm; reflexivity|].
+      eapply required_none; eauto.
+  Qed.
 End Sound.
